@@ -862,6 +862,16 @@ pub fn scenarios(prop: &str, thorough: bool) -> Vec<Scenario> {
         if small && !thorough && !s.name.contains("C20s") {
             s.fine = false;
         }
+        if thorough && prop == "C13" && (s.name.ends_with("/v6") || s.name.ends_with("/v7")) {
+            // the scripts with a batch-call injector / configuration updates are the longest ones
+            s.bound = 2;
+            continue;
+        }
+        if thorough && (prop == "C06" || prop == "C19") && ["E/", "EE/", "MC/", "MC2/", "NG/", "RE/"].iter().any(|f| s.name.starts_with(f)) {
+            // families borrowed from C07 / C12, where they are explored with a preemption
+            s.bound = 0;
+            continue;
+        }
         if s.name.contains("/held/") {
             // event loop around a held writer: long, many free choices; preemptions only in the thorough tier
             s.bound = if thorough { 1 } else { 0 };
